@@ -404,11 +404,27 @@ func (st *PState) PC() T { return And(st.pc...) }
 func (st *PState) HeapNames() []string {
 	var xs []string
 	for k := range st.heaps {
+		if strings.HasPrefix(k, "GH_") {
+			continue // ghost counters change only through `bumps` clauses (see Ghost)
+		}
 		xs = append(xs, k)
 	}
 	sort.Strings(xs)
 	return xs
 }
+
+// Ghost returns the current value of the ghost counter name. Ghost counters are integers that exist only in
+// contracts: a callee contract `bumps name by e` adds e at every call; nothing else changes them (in particular
+// havoced calls are assumed not to reach a function that bumps: listed in evidence as an assumption).
+func (st *PState) Ghost(name string) T {
+	k := "GH_" + sanitize(name)
+	if v, ok := st.heaps[k]; ok {
+		return v
+	}
+	return st.initHeap(k, SInt)
+}
+
+func (st *PState) SetGhost(name string, v T) { st.heaps["GH_"+sanitize(name)] = v }
 
 // LoadBindings reads "iface => concrete" lines (module-relative qualified type names).
 func (ex *Exec) LoadBindings(path string) {
